@@ -251,25 +251,38 @@ type hook struct {
 	id int
 }
 
+type idKey struct{}
+
+// WithID marks the commands issued under ctx as belonging to logical process id, whatever redis client
+// they go through (several operations of ONE component share its client, lock manager and repositories).
+func WithID(ctx context.Context, id int) context.Context { return context.WithValue(ctx, idKey{}, id) }
+
+func (h *hook) eid(ctx context.Context) int {
+	if v, ok := ctx.Value(idKey{}).(int); ok {
+		return v
+	}
+	return h.id
+}
+
 func (h *hook) DialHook(next redis.DialHook) redis.DialHook {
 	return func(ctx context.Context, network, addr string) (net.Conn, error) { return next(ctx, network, addr) }
 }
 
-func (h *hook) gate(kind string) Action {
+func (h *hook) gate(id int, kind string) Action {
 	s := h.s
 	s.mu.Lock()
-	active := s.procs[h.id].active && !s.procs[h.id].done
+	active := s.procs[id].active && !s.procs[id].done
 	s.mu.Unlock()
 	if !active {
 		return Run
 	}
 	select {
-	case s.arrivals <- arrival{id: h.id, kind: kind}:
+	case s.arrivals <- arrival{id: id, kind: kind}:
 	case <-s.abort:
 		panic(errAborted)
 	}
 	select {
-	case a := <-s.procs[h.id].grant:
+	case a := <-s.procs[id].grant:
 		return a
 	case <-s.abort:
 		panic(errAborted)
@@ -304,7 +317,8 @@ func (h *hook) ProcessHook(next redis.ProcessHook) redis.ProcessHook {
 		if kind == "set" {
 			kind = "setnx"
 		}
-		act := h.gate(kind)
+		id := h.eid(ctx)
+		act := h.gate(id, kind)
 		// a fault on UNWATCH is not injected: a failed UNWATCH on a healthy connection would leave the
 		// connection watching (in reality a failing connection is discarded, not reused)
 		if kind == "unwatch" && (act == FaultBefore || act == FaultAfter) {
@@ -315,21 +329,21 @@ func (h *hook) ProcessHook(next redis.ProcessHook) redis.ProcessHook {
 			h.park()
 		case CrashAfter:
 			err := next(ctx, cmd)
-			h.s.record(h.id, kind, replyClass(cmd, err)+"!crash")
-			h.s.arrivals <- arrival{id: h.id, kind: "parked"}
+			h.s.record(id, kind, replyClass(cmd, err)+"!crash")
+			h.s.arrivals <- arrival{id: id, kind: "parked"}
 			h.park()
 		case FaultBefore:
 			cmd.SetErr(ErrInjected)
-			h.s.record(h.id, kind, "fault-before")
+			h.s.record(id, kind, "fault-before")
 			return ErrInjected
 		case FaultAfter:
 			_ = next(ctx, cmd)
 			cmd.SetErr(ErrInjected)
-			h.s.record(h.id, kind, "fault-after")
+			h.s.record(id, kind, "fault-after")
 			return ErrInjected
 		}
 		err := next(ctx, cmd)
-		h.s.record(h.id, kind, replyClass(cmd, err))
+		h.s.record(id, kind, replyClass(cmd, err))
 		return err
 	}
 }
@@ -345,26 +359,27 @@ func (h *hook) ProcessPipelineHook(next redis.ProcessPipelineHook) redis.Process
 				c.SetErr(e)
 			}
 		}
-		switch h.gate(kind) {
+		id := h.eid(ctx)
+		switch h.gate(id, kind) {
 		case CrashBefore:
 			h.park()
 		case CrashAfter:
 			err := next(ctx, cmds)
-			h.s.record(h.id, kind, pipeReply(err)+"!crash")
-			h.s.arrivals <- arrival{id: h.id, kind: "parked"}
+			h.s.record(id, kind, pipeReply(err)+"!crash")
+			h.s.arrivals <- arrival{id: id, kind: "parked"}
 			h.park()
 		case FaultBefore:
 			setAll(ErrInjected)
-			h.s.record(h.id, kind, "fault-before")
+			h.s.record(id, kind, "fault-before")
 			return ErrInjected
 		case FaultAfter:
 			_ = next(ctx, cmds)
 			setAll(ErrInjected)
-			h.s.record(h.id, kind, "fault-after")
+			h.s.record(id, kind, "fault-after")
 			return ErrInjected
 		}
 		err := next(ctx, cmds)
-		h.s.record(h.id, kind, pipeReply(err))
+		h.s.record(id, kind, pipeReply(err))
 		return err
 	}
 }
